@@ -7,7 +7,8 @@ CACHE = os.path.join(VERIF, ".cache")
 SPEC = os.path.join(VERIF, "spec")
 HARNESS = os.path.join(VERIF, "harness")
 OUT = os.path.join(VERIF, "out")
-EVID = os.path.join(VERIF, "evidence")
+# evidence describes /repo; a run against a scratch copy (VERIF_REPO: seeded changes, reverted fixes) writes elsewhere
+EVID = os.path.join(VERIF, "evidence") if os.path.realpath(os.environ.get("VERIF_REPO", "/repo")) == "/repo" else os.path.join(VERIF, "out", "evidence-scratch")
 NCPU = os.cpu_count() or 4
 TLA_CP = "/opt/veriftools/tla/tla2tools.jar:/opt/veriftools/tla/CommunityModules-deps.jar"
 
@@ -259,7 +260,7 @@ def write_replay(pid, obj):
 
 def write_evidence(pid, tier, seed, level, coverage, wall, violations=0, assumptions=()):
     # evidence describes /repo; a run against a scratch copy (VERIF_REPO: seeded changes, reverted fixes) leaves it alone
-    evid = EVID if os.path.realpath(REPO) == "/repo" else os.path.join(VERIF, "out", "evidence-scratch")
+    evid = EVID
     os.makedirs(evid, exist_ok=True)
     ev = {"property_id": pid, "tier": tier, "seed": int(seed), "level": level, "coverage": coverage,
           "assumptions": list(assumptions), "wall_s": round(wall, 2), "violations": int(violations)}
